@@ -11,6 +11,8 @@ mod checks;
 mod core;
 mod fam_corrupt;
 mod fam_crash;
+mod fam_foreign;
+mod fam_histr;
 mod fam_histw;
 mod fam_rfault;
 mod fam_rt;
